@@ -1,11 +1,11 @@
 SPECIFICATION Spec
 CONSTANTS
-  Names = {"a", "b", "c"}
+  Names = {"a", "b"}
   Adders = {"p1"}
   Callers = {"c1"}
-  MaxAdds = 3
+  MaxAdds = 2
   UseRun = TRUE
   EarlyReturn = TRUE
-  Variant = "code"
+  Variant = "unlocked_check"
 INVARIANTS TypeOK NoPanic CancelOrder TiesTogether ShutdownWaits RunWaits
 PROPERTIES Terminates
